@@ -30,6 +30,29 @@ CLAIMS.update({
    ref="DESIGN.md section 4 C07"),
 })
 
+CLAIMS.update({
+ "C03": dict(
+   technique="symbolic store summaries of the integrator's straight-line update blocks (LF engine) + dominance rules, six configurations",
+   text="Decides per update block of update_nodes_positions, for all operand values and in all six configurations: the momentum increment is (F - gamma*p/m)*dt and the displacement p'*dt/m (after the momentum update) resp. F*dt/gamma; m is the node mass of the node's own cell (mean of both cells for a pair); averaging resets preserve the pair's total momentum/force and both nodes get the same displacement; every advanced node ends with a zero force accumulator; every write is dominated by the owning cell's static test, couplings exist only between type-0 cells and only ecm/static classes set is_static_; simulation_time_ has one writer '+= dt_' outside loops and dt_/damping_coeff_ are wired to the parameters. On the pinned tree this reports the known finding D17 (CM 2: position advanced with the pre-update momentum).",
+   note="Loops are not executed: in CM 2 the loop-accumulated averages are opaque atoms and only the per-node update forms are decided. No reasoning over many steps or about floating-point exactness of 'exactly one time step'.",
+   ref="DESIGN.md section 4 C03"),
+ "C13": dict(
+   technique="must-pass-through on the structured CFG with retry-idiom recognition; may-throw summaries; guard dataflow",
+   text="Decides the structural half of C13: triangulate_surface can only return a cell that passed initialize_cell_properties(check=true) on that path (bounded-retry idiom recognised, failure exit throws intialization_exception); initialize_cell_properties(true) passes through generate_edge_set, throws on !is_manifold() and orients normals; per-cell work runs under parallel_exception_handler; no noexcept function on the start-up cone leaks an exception; every insertion into the Poisson grid is guarded by the all-neighbours |p-q|^2 < l_min*l_min rejection over the neighbourhood of the same grid.",
+   note="Fidelity of the reconstruction (volume, bounding box, distance to the input surface) and the success probability are value-level and not decided. Neighbourhood completeness is C20.",
+   ref="DESIGN.md section 4 C13"),
+ "C15": dict(
+   technique="OpenMP region analysis over clang AST with the build's own flags: may-write effect summaries (call graph fixpoint), may-throw containment, container-resize typestate",
+   text="Decides data-race freedom and exception containment of every parallel region (directive regions and parallel_exception_handler call sites) in all six configurations: no exception can leave a region; a catch(...) in a region only stores current_exception() under critical and it is rethrown right after; no container is resized in a region while accessed outside the same critical section; every mutation of shared state by the region body or its whole callee closure is atomic, critical, under the node's lock, or confined to the loop's own element; vec3::translate's updates are atomic in the program as built (the compile database's flags are used, which is how the missing -fopenmp of math_modules was found).",
+   note="Bit-identity of results across thread counts and schedules is not decided (no schedule exploration in this family). Aliasing between different handles is not tracked; virtual calls by CHA.",
+   ref="DESIGN.md section 4 C15, section 3 E6"),
+ "C17": dict(
+   technique="exception-type lattice + may-throw summaries, nullable-result guard dataflow, taint-to-bound-check dominance in the mesh reader",
+   text="Decides for every input (all paths): every throw is std::exception-derived; nothing that may throw in main is outside its try/catch(std::exception); no noexcept function on the start-up cone (simulation_initializer, parameter_reader, mesh_reader, solver constructors) leaks a callee's exception; every nullable tinyxml2 result is tested before dereference or std::string construction (one level of interprocedural propagation); every vector subscript / iterator offset derived from file integers in mesh_reader is dominated by a bound check against that container.",
+   note="Termination, memory proportionality and std::regex behaviour are not decided. tinyxml2 and the throwing std calls are summarised by frozen tables. optional::value() in noexcept accessors is excluded (guard lives in callers).",
+   ref="DESIGN.md section 4 C17"),
+})
+
 NA_DEFAULT = "checker not finished yet (see DESIGN.md section 4 for the planned clauses)"
 NA = {}
 
